@@ -779,6 +779,12 @@ func (u *Unit) publishCheck(st *State, pos token.Pos) {
 			if st.held[r+"."+li.Field] {
 				continue
 			}
+			if u.c != nil && u.c.Flags["assume_publish:"+n.Obj().Name()+"."+li.Field] {
+				// the constructor's body is verified against its contract, but that the new object satisfies this lock
+				// invariant when it is handed out is assumed, not proved (stated in the evidence)
+				u.assumeNote("the new " + li.TypeName + " built by " + u.name + " is assumed to satisfy the invariant of its lock " + li.Field + " when handed out (assume_publish)")
+				continue
+			}
 			sev := u.specEv(st, pos, "publish "+li.TypeName+"."+li.Field)
 			sev.binds[li.Recv] = scalar(r, SRef, types.NewPointer(t))
 			sev.pkg = u.eng.pkgs[li.PkgPath]
